@@ -67,9 +67,14 @@ def tasks(tier, seed):
     T.append(('space', 8, 4, 2, True, True, 2, 'mesh'))
     T.append(('space', 7, 3, 2, False, True, 2, 'mesh'))
     T.append(('space', 8, 4, 4, True, False, 2, 'mesh'))
+    # different sizes per dimension (the order of the Kronecker factors matters only here)
+    T.append(('space', (15, 7), (7, 3), 2, False, True, 2, 'mesh'))
+    T.append(('space', (7, 15), (3, 7), 2, False, True, 2, 'imex_mesh'))
+    T.append(('space', (15, 7), (7, 3), 4, False, True, 2, 'mesh'))
     if not quick:
         T.append(('space', 4, 2, 2, True, True, 3, 'mesh'))
         T.append(('space', 3, 1, 2, False, True, 3, 'mesh'))
+        T.append(('space', (7, 15, 7), (3, 7, 3), 2, False, True, 3, 'mesh'))
     for nf, nc in ((8, 4), (7, 3), (9, 4), (16, 8)):
         for k in ((2, 4) if quick else (2, 4, 6)):
             for periodic in (False, True):
@@ -172,9 +177,14 @@ class GridProb:
     x_i = (i+1) dx with dx = 1/(n+1) for Dirichlet, x_i = i dx with dx = 1/n for periodic)"""
 
     def __init__(self, nvars, periodic, dim, dtype=np.dtype('O')):
-        self.nvars = (nvars,) * dim if dim > 1 else nvars
+        if isinstance(nvars, (tuple, list)):  # different sizes per dimension (one mesh width, taken from the first dimension, as the transfer class reads it)
+            shape = tuple(int(n) for n in nvars)
+            nvars = shape[0]
+        else:
+            shape = (nvars,) * dim
+        self.nvars = shape if dim > 1 else nvars
         self.dx = 1.0 / nvars if periodic else 1.0 / (nvars + 1)
-        self.init = ((nvars,) * dim if dim > 1 else nvars, None, dtype)
+        self.init = (shape if dim > 1 else nvars, None, dtype)
         self.n1 = nvars
 
 
@@ -214,7 +224,9 @@ def lagrange_oracle(nf, nc, order, periodic):
 
 
 def space_case(rep, nf, nc, order, periodic, nested, dim, dtype_name):
-    name = f'space/{nf}-{nc}/o{order}/{"periodic" if periodic else "dirichlet"}/nested{int(nested)}/dim{dim}/{dtype_name}'
+    nfs = tuple(nf) if isinstance(nf, (tuple, list)) else (nf,) * dim
+    ncs = tuple(nc) if isinstance(nc, (tuple, list)) else (nc,) * dim
+    name = f'space/{"x".join(map(str, nfs)) if isinstance(nf, (tuple, list)) else nf}-{"x".join(map(str, ncs)) if isinstance(nc, (tuple, list)) else nc}/o{order}/{"periodic" if periodic else "dirichlet"}/nested{int(nested)}/dim{dim}/{dtype_name}'
     fp, cp = GridProb(nf, periodic, dim), GridProb(nc, periodic, dim)
     try:
         T = mesh_to_mesh(fp, cp, {'periodic': periodic, 'equidist_nested': nested, 'iorder': order, 'rorder': order})
@@ -227,7 +239,7 @@ def space_case(rep, nf, nc, order, periodic, nested, dim, dtype_name):
     tol = rv(Fraction(1, 10**12))
     cls = mesh if dtype_name == 'mesh' else imex_mesh
     ncomp = 1 if dtype_name == 'mesh' else 2
-    Nc, Nf = nc**dim, nf**dim
+    Nc, Nf = int(np.prod(ncs)), int(np.prod(nfs))
     # arbitrary symbolic coarse data (per component different variables)
     gv = [[z3.Real(f'g{c}_{j}') for j in range(Nc)] for c in range(ncomp)]
     G = cls(cp.init)
@@ -237,18 +249,19 @@ def space_case(rep, nf, nc, order, periodic, nested, dim, dtype_name):
         for c in range(ncomp):
             G[c][:] = np.array([SymReal(v) for v in gv[c]], dtype=object).reshape(G[c].shape)
     F = T.prolong(G)
-    rep.side(f'{name}:prolong-preserves-type-and-shape', type(F) is cls and F.shape == ((ncomp,) if ncomp > 1 else ()) + ((nf,) * dim))
+    rep.side(f'{name}:prolong-preserves-type-and-shape', type(F) is cls and F.shape == ((ncomp,) if ncomp > 1 else ()) + nfs)
     # oracle: tensor product of the exact 1-D Lagrange weights
-    W1 = lagrange_oracle(nf, nc, order, periodic)
-    ghost_free = all(not isinstance(k, tuple) for w in W1 for k in w)
+    WA = [lagrange_oracle(nfs[d], ncs[d], order, periodic) for d in range(dim)]
+    W1 = WA[0]
+    ghost_free = all(not isinstance(k, tuple) for W_ in WA for w in W_ for k in w)
     goal = []
     if ghost_free:
         for c in range(ncomp):
-            Fc = np.asarray(F if ncomp == 1 else F[c]).reshape((nf,) * dim)
-            Gc = np.array(gv[c], dtype=object).reshape((nc,) * dim)
-            for idx in itertools.product(range(nf), repeat=dim):
+            Fc = np.asarray(F if ncomp == 1 else F[c]).reshape(nfs)
+            Gc = np.array(gv[c], dtype=object).reshape(ncs)
+            for idx in itertools.product(*[range(n) for n in nfs]):
                 spec = z3.RealVal(0)
-                for combo in itertools.product(*[list(W1[i].items()) for i in idx]):
+                for combo in itertools.product(*[list(WA[d][i].items()) for d, i in enumerate(idx)]):
                     wgt = Fraction(1)
                     j = []
                     for (jk, wk) in combo:
@@ -261,7 +274,7 @@ def space_case(rep, nf, nc, order, periodic, nested, dim, dtype_name):
         res, m = prove(z3.And(goal), box([v for g in gv for v in g]), timeout_ms=120000, name=f'{name}:prolong-is-lagrange-through-nearest-points')
         rep.ob(f'{name}:prolong-is-lagrange-through-nearest-points', res)
         if res == 'sat':
-            space_triage(rep, name, nf, nc, order, periodic, nested, dim, Pd, W1, 'lagrange')
+            space_triage(rep, name, nf, nc, order, periodic, nested, dim, Pd, WA if isinstance(nf, (tuple, list)) else W1, 'lagrange')
     else:
         rep.extra['oracle_needs_mirror_points'] = rep.extra.get('oracle_needs_mirror_points', 0) + 1
     # what the property promises in terms of functions: constants on periodic grids; polynomials of degree < order vanishing on the boundary on Dirichlet grids
@@ -298,7 +311,7 @@ def space_case(rep, nf, nc, order, periodic, nested, dim, dtype_name):
         for c in range(ncomp):
             Fm[c][:] = np.array([SymReal(v) for v in fv[c]], dtype=object).reshape(Fm[c].shape)
     Gr = T.restrict(Fm)
-    rep.side(f'{name}:restrict-preserves-type-and-shape', type(Gr) is cls and Gr.shape == ((ncomp,) if ncomp > 1 else ()) + ((nc,) * dim))
+    rep.side(f'{name}:restrict-preserves-type-and-shape', type(Gr) is cls and Gr.shape == ((ncomp,) if ncomp > 1 else ()) + ncs)
     goal = []
     for c in range(ncomp):
         Gc = np.asarray(Gr if ncomp == 1 else Gr[c]).ravel()
@@ -319,18 +332,19 @@ def space_case(rep, nf, nc, order, periodic, nested, dim, dtype_name):
 
 def space_triage(rep, name, nf, nc, order, periodic, nested, dim, Pd, W1, clause):
     rep.replayed += 1
-    O = np.zeros((nf, nc))
-    for i, w in enumerate(W1):
-        for j, v in w.items():
-            if not isinstance(j, tuple):
-                O[i, j] = float(v)
-    On = O
-    for _ in range(dim - 1):
-        On = np.kron(On, O)
+    WA = W1 if isinstance(nf, (tuple, list)) else [W1] * dim
+    On = None
+    for d in range(dim):
+        O = np.zeros((len(WA[d]), (nc[d] if isinstance(nc, (tuple, list)) else nc)))
+        for i, w in enumerate(WA[d]):
+            for j, v in w.items():
+                if not isinstance(j, tuple):
+                    O[i, j] = float(v)
+        On = O if On is None else np.kron(On, O)
     dev = np.abs(Pd - On).max()
     if dev > 1e-10:
         i, j = np.unravel_index(np.abs(Pd - On).argmax(), Pd.shape)
-        tight = periodic and nc == order
+        tight = periodic and (nc == order if not isinstance(nc, (tuple, list)) else order in nc)
         key = (f'{PID}/periodic-interpolation/coarse-grid-as-wide-as-stencil/o{order}' if tight else
                f'{PID}/space-transfer/{"periodic" if periodic else "dirichlet"}/nested{int(nested)}/{clause}')
         rep.violation(key,
